@@ -280,7 +280,7 @@ __attribute__((noinline)) static void q_alloc_child(int cid, int cslot) {
   want_slot = cslot; slot_id[cslot] = cid; o->ptr = ARENA + (size_t)cslot * STRIDE;
   /* is a sweep releasing objects right now?  then remember who is still waiting on its list */
   int in_sweep = gc->freelist != NULL && gc->freenum > 0;
-  static int waiting[MAXID]; int nwaiting = 0;
+  int* waiting = in_sweep ? malloc(sizeof(int) * gc->freenum) : NULL; int nwaiting = 0;   /* (not static: destructors nest) */
   if (in_sweep) for (size_t i = 0; i < gc->freenum; i++) { int w = gc->freelist[i] ? id_of(gc->freelist[i]) : -1; if (w >= 0) waiting[nwaiting++] = w; }
   int will_collect = gc->running && gc->nitems + 1 > gc->mitems;
   var saved = gc->bottom; gc->bottom = &bottom_marker;
@@ -297,6 +297,7 @@ __attribute__((noinline)) static void q_alloc_child(int cid, int cslot) {
     GC_Sweep(gc);
   }
   gc->bottom = saved;
+  free(waiting);
   if (p != o->ptr) X("sig=life-arena line=%zu what=arena address mismatch", cur_line);
   p = NULL;
 }
